@@ -175,3 +175,70 @@ mod test_sm2 {
         assert_eq!(msg, plain);
     }
 }
+
+/// Verification hooks (compiled only with `--cfg gm_rs_verif`): RNG observation / scripting and
+/// read-only wrappers around crate-private arithmetic.  Never compiled into normal builds.
+#[cfg(gm_rs_verif)]
+pub mod verif {
+    use crate::error::Sm2Result;
+    use crate::fields::FieldModOperation;
+    use crate::p256_ecc::Point;
+    use crate::u256::U256;
+    use std::cell::RefCell;
+
+    #[derive(Clone, Debug)]
+    pub struct RngEvent {
+        pub candidate: [u8; 32],
+        pub accepted: bool,
+    }
+
+    thread_local! {
+        static SCRIPT: RefCell<Vec<[u8; 32]>> = RefCell::new(Vec::new());
+        static LOG: RefCell<Vec<RngEvent>> = RefCell::new(Vec::new());
+    }
+
+    /// Candidates offered (in order) instead of the CSPRNG output; when exhausted the real bytes are used.
+    pub fn rng_script(cands: Vec<[u8; 32]>) {
+        SCRIPT.with(|s| {
+            let mut c = cands;
+            c.reverse();
+            *s.borrow_mut() = c;
+        });
+    }
+    pub fn rng_take_log() -> Vec<RngEvent> {
+        LOG.with(|l| std::mem::take(&mut *l.borrow_mut()))
+    }
+    pub(crate) fn rng_candidate(buf: &mut [u8; 32]) {
+        SCRIPT.with(|s| {
+            if let Some(c) = s.borrow_mut().pop() {
+                *buf = c;
+            }
+        });
+        LOG.with(|l| l.borrow_mut().push(RngEvent { candidate: *buf, accepted: false }));
+    }
+    pub(crate) fn rng_accept(_v: &U256) {
+        LOG.with(|l| {
+            if let Some(e) = l.borrow_mut().last_mut() {
+                e.accepted = true;
+            }
+        });
+    }
+
+    pub fn fn_add(a: &U256, b: &U256) -> U256 { crate::fields::fn64::fn_add(a, b) }
+    pub fn fn_sub(a: &U256, b: &U256) -> U256 { crate::fields::fn64::fn_sub(a, b) }
+    pub fn fn_mul(a: &U256, b: &U256) -> U256 { crate::fields::fn64::fn_mul(a, b) }
+    pub fn fn_pow(a: &U256, e: &U256) -> U256 { crate::fields::fn64::fn_pow(a, e) }
+    pub fn fp_to_mont(a: &U256) -> U256 { crate::fields::fp64::fp_to_mont(a) }
+    pub fn fp_from_mont(a: &U256) -> U256 { crate::fields::fp64::fp_from_mont(a) }
+    pub fn fp_mont_mul(a: &U256, b: &U256) -> U256 { crate::fields::fp64::mont_mul(a, b) }
+    pub fn fp_pow(a: &U256, e: &U256) -> U256 { crate::fields::fp64::fp_pow(a, e) }
+    pub fn fp_sqrt(a: &U256) -> Sm2Result<U256> { crate::fields::fp64::fp_sqrt(a) }
+    pub fn fp_add(a: &U256, b: &U256) -> U256 { a.fp_add(b) }
+    pub fn fp_sub(a: &U256, b: &U256) -> U256 { a.fp_sub(b) }
+    pub fn fp_neg(a: &U256) -> U256 { a.fp_neg() }
+    pub fn fp_double(a: &U256) -> U256 { a.fp_double() }
+    pub fn fp_triple(a: &U256) -> U256 { a.fp_triple() }
+    pub fn fp_inv(a: &U256) -> U256 { a.fp_inv() }
+    pub fn table_entry(i: usize, j: usize) -> U256 { crate::sm2p256_table::SM2P256_PRECOMPUTED[i][j] }
+    pub fn point_from_bytes(b: &[u8]) -> Sm2Result<Point> { Point::from_byte(b) }
+}
